@@ -40,7 +40,8 @@ from deepali.utils.imageio.meta import read_meta_image
 SUFFIXES = [".mha", ".mhd", ".nii", ".nii.gz", ".hdr", ".img", ".img.gz", ".nrrd", ".nhdr", ".mnc", ".vtk", ".hdf5"]
 # what a format can represent (probed with this SimpleITK build): payloads are adapted, not the oracle
 CAPS = {".vtk": {"oriented": False}, ".hdf5": {"max_channels": 1}}
-STEMS = ["s0", "s1", "s2"]
+STEMS = ["s0", "s 1", "s%202"]  # plain, with a space, with a literal percent escape (all valid POSIX names; '#' and '?' are
+# not used: deepali's path -> URI -> urlsplit pipeline drops everything after them, see DESIGN.md section 4.3)
 DTYPES = ["uint8", "int16", "int32", "float32", "float64"]
 NATIVE_BYTES = (".mha",)
 NIFTI_FAMILY = [".nii", ".nii.gz", ".hdr", ".img", ".img.gz"]
@@ -779,6 +780,10 @@ class _Gen:
         else:
             stem = rng.choice(STEMS[: self.sc["n_stems"]])
         sufs = [s for s in SUFFIXES if self.sc["suffix_on"].get(s, True)] or SUFFIXES
+        if "%" in stem:
+            # ITK's MetaIO reads a '%' in the name of the external data file as a printf pattern (one file per slice):
+            # a limitation of the format's second party, so header+data MetaImages do not get such names
+            sufs = [s for s in sufs if s != ".mhd"] or [".mha"]
         return stem + rng.choice(sufs)
 
     def propose(self, rng: Rng) -> Optional[Dict[str, Any]]:
